@@ -126,8 +126,9 @@ structure CState where
   lastTime : Nat := 0
   lastCounter : Nat := 0
 
-/-- one call at (masked) millisecond stamp `ts`; returns the 64-bit value before base-62 rendering. -/
-def cuidStep (mac : Nat) (st : CState) (ts : Nat) : Nat × CState :=
+/-- one call at (masked) millisecond stamp `ts`; returns the 64-bit value before base-62 rendering.
+    (Abstract spike version; the Go-faithful, string-producing `Ids.cuidStep` is in `Sessions/Ids/Cuid.lean`.) -/
+def cuidStepBits (mac : Nat) (st : CState) (ts : Nat) : Nat × CState :=
   let c := if ts = st.lastTime then st.lastCounter + 1 else 0
   (ts * 16777216 + ((mac + c / 256) % 65536) * 256 + c % 256, { lastTime := ts, lastCounter := c })
 
